@@ -187,7 +187,7 @@ Lemma dispatch_shape cf st c m st' o :
 Proof.
   unfold dispatch. destruct (resolve st (m_dest m)) as [r|]; [|intros H; inversion H; right; eauto].
   destruct ((0 <? m_nfds m) && negb (conn_fds st r)); [intros H; inversion H; right; eauto|].
-  destruct (check_security_policy cf (st_now st) (st_pend st) c r m) as [pl res].
+  destruct (check_security_policy cf (st_now st) (st_pend st) c r m (is_full st r)) as [pl res].
   destruct res as [e|]; intros H; inversion H; [right|left]; eauto.
 Qed.
 
@@ -197,7 +197,7 @@ Lemma dispatch_frame cf st c m st' o :
 Proof.
   unfold dispatch. destruct (resolve st (m_dest m)) as [r|]; [|intros H; inversion H; auto].
   destruct ((0 <? m_nfds m) && negb (conn_fds st r)); [intros H; inversion H; auto|].
-  destruct (check_security_policy cf (st_now st) (st_pend st) c r m) as [pl res].
+  destruct (check_security_policy cf (st_now st) (st_pend st) c r m (is_full st r)) as [pl res].
   destruct res as [e|]; intros H; inversion H; auto.
 Qed.
 
@@ -208,22 +208,22 @@ Proof.
   intros Hn. unfold step. destruct (negb (wf_event st (ESend c m))); [intros H; inversion H; auto|].
   unfold dispatch. destruct (resolve st (m_dest m)) as [r|]; [|intros H; inversion H; auto].
   destruct ((0 <? m_nfds m) && negb (conn_fds st r)); [intros H; inversion H; auto|].
-  destruct (check_security_policy cf (st_now st) (st_pend st) c r m) as [pl res] eqn:C.
+  destruct (check_security_policy cf (st_now st) (st_pend st) c r m (is_full st r)) as [pl res] eqn:C.
   assert (Hs : forall p, In p pl -> In p (st_pend st)).
   { revert C. unfold check_security_policy.
     destruct (m_rserial m =? 0).
     - destruct (negb (can_send cf m false)); [intros H; inversion H; subst; auto|].
-      destruct (negb (can_receive cf m false)); [intros H; inversion H; subst; auto|].
+      destruct (negb (can_receive cf m false)); [intros H; inversion H; subst; auto|]. destruct (is_full st r); [intros H; inversion H; subst; auto|].
       destruct (m_type m); try solve [intros H; inversion H; subst; auto].
       unfold expect_reply. rewrite Hn. intros H; inversion H; subst; auto.
     - destruct (check_reply (st_pend st) c r (m_rserial m)) as [pl1|] eqn:R.
       + pose proof (check_reply_incl _ _ _ _ _ R) as Hi.
         destruct (negb (can_send cf m true)); [intros H; inversion H; subst; auto|].
-        destruct (negb (can_receive cf m true)); [intros H; inversion H; subst; auto|].
+        destruct (negb (can_receive cf m true)); [intros H; inversion H; subst; auto|]. destruct (is_full st r); [intros H; inversion H; subst; auto|].
         destruct (m_type m); try solve [intros H; inversion H; subst; auto].
         unfold expect_reply. rewrite Hn. intros H; inversion H; subst; auto.
       + destruct (negb (can_send cf m false)); [intros H; inversion H; subst; auto|].
-        destruct (negb (can_receive cf m false)); [intros H; inversion H; subst; auto|].
+        destruct (negb (can_receive cf m false)); [intros H; inversion H; subst; auto|]. destruct (is_full st r); [intros H; inversion H; subst; auto|].
         destruct (m_type m); try solve [intros H; inversion H; subst; auto].
         unfold expect_reply. rewrite Hn. intros H; inversion H; subst; auto. }
   destruct res as [e|]; intros H; inversion H; subst; simpl; auto.
@@ -239,13 +239,13 @@ Lemma requested_only_state cf st c m st' o a :
 Proof.
   intros Hr Hs. unfold dispatch. destruct (resolve st (m_dest m)) as [r|] eqn:Rs; [|intros H; inversion H; subst; simpl; discriminate].
   destruct ((0 <? m_nfds m) && negb (conn_fds st r)); [intros H; inversion H; subst; simpl; discriminate|].
-  destruct (check_security_policy cf (st_now st) (st_pend st) c r m) as [pl res] eqn:C.
+  destruct (check_security_policy cf (st_now st) (st_pend st) c r m (is_full st r)) as [pl res] eqn:C.
   destruct res as [e|]; intros H; inversion H; subst; [simpl; discriminate|].
   fold (fwd_out cf st c r m). rewrite fwd_to_single. intros Ha. apply N.eqb_eq in Ha. subst a. split; auto. split; auto.
   revert C. unfold check_security_policy. apply N.eqb_neq in Hs. rewrite Hs.
   destruct (check_reply (st_pend st) c r (m_rserial m)) as [pl1|] eqn:R.
   - destruct (check_reply_some _ _ _ _ _ R) as (l1 & p & l2 & E1 & E2 & Hm).
-    destruct (negb (can_send cf m true)); [discriminate|]. destruct (negb (can_receive cf m true)); [discriminate|].
+    destruct (negb (can_send cf m true)); [discriminate|]. destruct (negb (can_receive cf m true)); [discriminate|]. destruct (is_full st r); [discriminate|].
     intros C. exists l1, p, l2. split; auto. split; auto. intros q Hq. subst pl1.
     destruct (m_type m) eqn:Ty; try (inversion C; subst; auto).
     destruct (expect_reply_cases _ _ _ _ _ _ _ _ C) as [(_ & -> & _)|[(_ & _ & ? & _)|[(_ & _ & ? & _)|(_ & -> & _)]]]; try discriminate; auto.
@@ -266,17 +266,18 @@ Proof.
 Qed.
 
 (* C09 limit: the number of slots per receiver never exceeds max_replies_per_connection *)
-Lemma csp_count cf now pl c r m pl' res a :
-  (forall a, count_get a pl <= max_replies cf) -> check_security_policy cf now pl c r m = (pl', res) -> count_get a pl' <= max_replies cf.
+Lemma csp_count cf now pl c r m fl pl' res a :
+  (forall a, count_get a pl <= max_replies cf) -> check_security_policy cf now pl c r m fl = (pl', res) -> count_get a pl' <= max_replies cf.
 Proof.
   intros Hl. unfold check_security_policy.
   assert (G : forall pl1 rq, (forall a, count_get a pl1 <= max_replies cf) ->
      (if negb (can_send cf m rq) then (pl1, Some EAccessDenied)
       else if negb (can_receive cf m rq) then (pl1, Some EAccessDenied)
+      else if fl then (pl1, Some ELimitsExceeded)
       else match m_type m with TCall => expect_reply cf now pl1 c r m | _ => (pl1, None) end) = (pl', res) ->
      count_get a pl' <= max_replies cf).
   { intros pl1 rq H1. destruct (negb (can_send cf m rq)); [intros H; inversion H; subst; auto|].
-    destruct (negb (can_receive cf m rq)); [intros H; inversion H; subst; auto|].
+    destruct (negb (can_receive cf m rq)); [intros H; inversion H; subst; auto|]. destruct fl; [intros H; inversion H; subst; auto|].
     destruct (m_type m); try solve [intros H; inversion H; subst; auto].
     intros C. destruct (expect_reply_cases _ _ _ _ _ _ _ _ C) as [(_ & -> & _)|[(_ & -> & _)|[(_ & -> & _)|(_ & -> & _ & Hc & _)]]]; auto.
     rewrite count_get_cons. simpl. destruct (c =? a) eqn:E; [apply N.eqb_eq in E; subst; lia|apply H1]. }
@@ -301,12 +302,12 @@ Lemma limit_step cf st e :
   (forall a, count_get a (st_pend st) <= max_replies cf) -> forall a, count_get a (st_pend (fst (step cf st e))) <= max_replies cf.
 Proof.
   intros Hl a. unfold step. destruct (negb (wf_event st e)); [apply Hl|].
-  destruct e as [fds|c m|c|d|c s n al rp dq|c s n|c s rl]; simpl.
+  destruct e as [fds|c m|c|d|c s n al rp dq|c s n|c s rl|c|c]; simpl.
   - apply Hl.
   - unfold dispatch. destruct (resolve st (m_dest m)) as [r|]; [|apply Hl].
     destruct ((0 <? m_nfds m) && negb (conn_fds st r)); [apply Hl|].
-    destruct (check_security_policy cf (st_now st) (st_pend st) c r m) as [pl res] eqn:C.
-    pose proof (csp_count _ _ _ _ _ _ _ _ a Hl C).
+    destruct (check_security_policy cf (st_now st) (st_pend st) c r m (is_full st r)) as [pl res] eqn:C.
+    pose proof (csp_count _ _ _ _ _ _ _ _ _ a Hl C).
     destruct res; auto.
   - unfold disconnect. rewrite expire_pass_spec. simpl.
     pose proof (filter_count_le a (fun p => negb (expired cf (st_now st) p)) (drop_pending (st_pend st) c)).
@@ -315,6 +316,7 @@ Proof.
     pose proof (filter_count_le a (fun p => negb (expired cf (st_now st + d) p)) (st_pend st)). specialize (Hl a). lia.
   - destruct (acquire _ c al rp dq). simpl. apply Hl.
   - destruct (release (st_names st) c n). simpl. apply Hl.
+  - apply Hl.  - apply Hl.
   - apply Hl.
 Qed.
 
@@ -422,7 +424,7 @@ Lemma step_conn cf st e : conn_rel st (fst (step cf st e)) e.
 Proof.
   unfold step. destruct (negb (wf_event st e)) eqn:W.
   - simpl. destruct e; simpl; auto. simpl in W. apply negb_true_iff in W. rewrite W. auto.
-  - apply negb_false_iff in W. destruct e as [fds|c m|c|d|c s n al rp dq|c s n|c s rl]; simpl.
+  - apply negb_false_iff in W. destruct e as [fds|c m|c|d|c s n al rp dq|c s n|c s rl|c|c]; simpl.
     + intros x. unfold connected. simpl. rewrite find_conn_app. destruct (find_conn (st_conns st) x); auto. discriminate.
     + intros x. destruct (dispatch cf st c m) as [st' o] eqn:D. apply dispatch_frame in D. unfold connected. simpl. destruct D as (-> & _). auto.
     + simpl in W. rewrite W. intros x. unfold disconnect. destruct (expire_pass cf (st_now st) (drop_pending (st_pend st) c)).
@@ -430,6 +432,7 @@ Proof.
     + intros x. unfold tick. destruct (expire_pass cf (st_now st + d) (st_pend st)). reflexivity.
     + intros x. destruct (acquire _ c al rp dq). reflexivity.
     + intros x. destruct (release (st_names st) c n). reflexivity.
+    + intros x. reflexivity.    + intros x. reflexivity.
     + intros x. reflexivity.
 Qed.
 
@@ -437,7 +440,7 @@ Lemma names_ok_step cf st e : names_ok st -> names_ok (fst (step cf st e)).
 Proof.
   intros Hn. pose proof (step_conn cf st e) as Hc. revert Hc. unfold step.
   destruct (negb (wf_event st e)) eqn:W; [auto|]. apply negb_false_iff in W.
-  destruct e as [fds|c m|c|d|c s n al rp dq|c s n|c s rl]; simpl; intros Hc.
+  destruct e as [fds|c m|c|d|c s n al rp dq|c s n|c s rl|c|c]; simpl; intros Hc.
   - intros n q o H1 H2. apply Hc. simpl in H1. eapply Hn; eauto.
   - destruct (dispatch cf st c m) as [st' o] eqn:D. simpl in *. pose proof (dispatch_frame _ _ _ _ _ _ D) as (_ & _ & E & _).
     intros n q o' H1 H2. rewrite Hc. rewrite E in H1. eapply Hn; eauto.
@@ -446,7 +449,7 @@ Proof.
     rewrite Hc. apply N.eqb_neq in H3. rewrite H3. eapply Hn; eauto.
   - unfold tick in *. destruct (expire_pass cf (st_now st + d) (st_pend st)) as [pl oo]. simpl in *.
     intros n q o H1 H2. rewrite Hc. eapply Hn; eauto.
-  - simpl in W. apply andb_true_iff in W. destruct W as [W _].
+  - simpl in W. rewrite !andb_true_iff in W. destruct W as [[W _] _].
     destruct (acquire (match lookup (st_names st) n with Some q => q | None => [] end) c al rp dq) as [q' code] eqn:A. simpl in *.
     intros n' q o H1 H2. rewrite Hc. apply set_queue_in in H1. destruct H1 as [[-> ->]|H1]; [|eapply Hn; eauto].
     assert (H3 : In o (fst (acquire (match lookup (st_names st) n with Some q => q | None => [] end) c al rp dq))) by (rewrite A; auto).
@@ -458,6 +461,7 @@ Proof.
         apply remove_owner_in in H2. destruct H2 as [H2 _]. apply lookup_in in L. eapply Hn; eauto.
       * intros n' q' o H1 H2. rewrite Hc. eapply Hn; eauto.
     + intros n' q' o H1 H2. rewrite Hc. eapply Hn; eauto.
+  - intros n' q' o H1 H2. simpl in *. rewrite Hc. eapply Hn; eauto.  - intros n' q' o H1 H2. simpl in *. rewrite Hc. eapply Hn; eauto.
   - intros n' q' o H1 H2. simpl in *. rewrite Hc. eapply Hn; eauto.
 Qed.
 
@@ -481,16 +485,19 @@ Inductive send_case (cf : cfg) (st : state) (c : N) (m : msg) (st' : state) (o :
 | SC_answers r l1 p l2 : o = fwd_out cf st c r m -> is_call m = false -> m_rserial m <> 0 -> st_pend st = l1 ++ p :: l2 ->
      pend_match r c (m_rserial m) p = true -> st_pend st' = l1 ++ l2 -> send_case cf st c m st' o.
 
-Lemma send_cases cf st c m st' o : plain_msg m = true -> dispatch cf st c m = (st', o) -> send_case cf st c m st' o.
+Definition full_idle (st : state) : Prop := forall p, In p (st_pend st) -> is_full st (p_get p) = false.
+
+Lemma send_cases cf st c m st' o :
+  full_idle st -> plain_msg m = true -> dispatch cf st c m = (st', o) -> send_case cf st c m st' o.
 Proof.
-  unfold plain_msg. intros Hp. unfold dispatch.
+  unfold plain_msg. intros Hfi Hp. unfold dispatch.
   destruct (resolve st (m_dest m)) as [r|] eqn:Rs; [|intros H; inversion H; subst; apply SC_refused; auto].
   destruct ((0 <? m_nfds m) && negb (conn_fds st r)); [intros H; inversion H; subst; apply SC_refused; auto|].
-  destruct (check_security_policy cf (st_now st) (st_pend st) c r m) as [pl res] eqn:C. revert C. unfold check_security_policy.
+  destruct (check_security_policy cf (st_now st) (st_pend st) c r m (is_full st r)) as [pl res] eqn:C. revert C. unfold check_security_policy.
   destruct (m_rserial m =? 0) eqn:R0.
   - apply N.eqb_eq in R0.
     destruct (negb (can_send cf m false)); [intros C H; inversion C; subst; simpl in H; inversion H; subst; apply SC_refused; auto|].
-    destruct (negb (can_receive cf m false)); [intros C H; inversion C; subst; simpl in H; inversion H; subst; apply SC_refused; auto|].
+    destruct (negb (can_receive cf m false)); [intros C H; inversion C; subst; simpl in H; inversion H; subst; apply SC_refused; auto|]. destruct (is_full st r); [intros C H; inversion C; subst; simpl in H; inversion H; subst; apply SC_refused; auto|].
     destruct (m_type m) eqn:Ty;
       try solve [intros C H; inversion C; subst; simpl in H; inversion H; subst; simpl; apply (SC_through _ _ _ _ _ _ r); auto; left; unfold is_call; rewrite Ty; auto].
     intros C. destruct (expect_reply_cases _ _ _ _ _ _ _ _ C) as [(Hn & -> & ->)|[(Hn & -> & -> & _)|[(Hn & -> & -> & _)|(Hn & -> & -> & Hc & Hno)]]];
@@ -505,13 +512,78 @@ Proof.
     destruct (check_reply (st_pend st) c r (m_rserial m)) as [pl1|] eqn:R.
     + destruct (check_reply_some _ _ _ _ _ R) as (l1 & p & l2 & E1 & E2 & Hm).
       rewrite can_receive_true, can_send_true. simpl.
+      assert (Fr : is_full st r = false).
+      { apply pend_match_iff in Hm. destruct Hm as (_ & <- & _). apply Hfi. rewrite E1. apply in_app_iff. right; left; auto. }
+      rewrite Fr.
       destruct (m_type m) eqn:Ty; try (unfold is_call in Hnc; rewrite Ty in Hnc; discriminate);
         intros C H; inversion C; subst; simpl in H; inversion H; subst; simpl; apply (SC_answers _ _ _ _ _ _ r l1 p l2); auto.
     + pose proof (proj1 (check_reply_none _ _ _ _) R) as Hno.
       destruct (negb (can_send cf m false)); [intros C H; inversion C; subst; simpl in H; inversion H; subst; apply SC_refused; auto|].
-      destruct (negb (can_receive cf m false)); [intros C H; inversion C; subst; simpl in H; inversion H; subst; apply SC_refused; auto|].
+      destruct (negb (can_receive cf m false)); [intros C H; inversion C; subst; simpl in H; inversion H; subst; apply SC_refused; auto|]. destruct (is_full st r); [intros C H; inversion C; subst; simpl in H; inversion H; subst; apply SC_refused; auto|].
       destruct (m_type m) eqn:Ty; try (unfold is_call in Hnc; rewrite Ty in Hnc; discriminate);
         intros C H; inversion C; subst; simpl in H; inversion H; subst; simpl; apply (SC_through _ _ _ _ _ _ r); auto.
+Qed.
+
+(* stalled connections have no call open (wf_event admits EBlock only then, and a stalled connection writes nothing) *)
+Lemma existsb_eqb_mono x (l l' : list N) : (forall y, In y l' -> In y l) -> existsb (N.eqb x) l' = true -> existsb (N.eqb x) l = true.
+Proof.
+  intros H E. apply existsb_exists in E. destruct E as (y & Hy & Ey). apply existsb_exists. exists y. split; auto.
+Qed.
+
+Lemma csp_getters cf now pl c r m fl pl' res :
+  check_security_policy cf now pl c r m fl = (pl', res) -> forall p, In p pl' -> In p pl \/ p_get p = c.
+Proof.
+  unfold check_security_policy.
+  assert (G : forall pl1 rq, (forall p, In p pl1 -> In p pl) ->
+     (if negb (can_send cf m rq) then (pl1, Some EAccessDenied)
+      else if negb (can_receive cf m rq) then (pl1, Some EAccessDenied)
+      else if fl then (pl1, Some ELimitsExceeded)
+      else match m_type m with TCall => expect_reply cf now pl1 c r m | _ => (pl1, None) end) = (pl', res) ->
+     forall p, In p pl' -> In p pl \/ p_get p = c).
+  { intros pl1 rq H1. destruct (negb (can_send cf m rq)); [intros H; inversion H; subst; auto|].
+    destruct (negb (can_receive cf m rq)); [intros H; inversion H; subst; auto|]. destruct fl; [intros H; inversion H; subst; auto|].
+    destruct (m_type m); try solve [intros H; inversion H; subst; auto].
+    intros C. destruct (expect_reply_cases _ _ _ _ _ _ _ _ C) as [(_ & -> & _)|[(_ & -> & _)|[(_ & -> & _)|(_ & -> & _)]]]; auto.
+    intros p [<-|Hp]; auto. }
+  destruct (m_rserial m =? 0); [apply G; auto|].
+  destruct (check_reply pl c r (m_rserial m)) as [pl1|] eqn:R; [|apply G; auto].
+  apply G. apply (check_reply_incl _ _ _ _ _ R).
+Qed.
+
+Lemma dispatch_getters cf st c m st' o :
+  dispatch cf st c m = (st', o) -> st_full st' = st_full st /\ forall p, In p (st_pend st') -> In p (st_pend st) \/ p_get p = c.
+Proof.
+  unfold dispatch. destruct (resolve st (m_dest m)) as [r|]; [|intros H; inversion H; auto].
+  destruct ((0 <? m_nfds m) && negb (conn_fds st r)); [intros H; inversion H; auto|].
+  destruct (check_security_policy cf (st_now st) (st_pend st) c r m (is_full st r)) as [pl res] eqn:C.
+  pose proof (csp_getters _ _ _ _ _ _ _ _ _ C) as G.
+  destruct res as [e|]; intros H; inversion H; subst; simpl; auto.
+Qed.
+
+Lemma full_idle_step cf st e : full_idle st -> full_idle (fst (step cf st e)).
+Proof.
+  intros Hf. unfold step. destruct (negb (wf_event st e)) eqn:W; [exact Hf|]. apply negb_false_iff in W.
+  destruct e as [fds|c m|c|d|c s n al rp dq|c s n|c s rl|c|c]; cbn [fst].
+  - exact Hf.
+  - destruct (dispatch cf st c m) as [st' o] eqn:D. cbn [fst]. destruct (dispatch_getters _ _ _ _ _ _ D) as [Ef G].
+    intros p Hp. unfold is_full. rewrite Ef. destruct (G p Hp) as [Hin| ->]; [apply Hf; auto|].
+    simpl in W. rewrite !andb_true_iff in W. destruct W as [_ W]. apply negb_true_iff in W. exact W.
+  - unfold disconnect. rewrite expire_pass_spec. cbn [fst]. intros p Hp. cbn [st_pend] in Hp. apply filter_In in Hp. destruct Hp as [Hp _].
+    apply drop_pending_in in Hp. destruct Hp as (p0 & Hin & _ & Hq).
+    assert (Eg : p_get p = p_get p0) by (destruct Hq as [[-> _]|[_ ->]]; reflexivity). rewrite Eg.
+    specialize (Hf p0 Hin). unfold is_full in *. cbn [st_full].
+    destruct (existsb (N.eqb (p_get p0)) (filter (fun x => negb (x =? c)) (st_full st))) eqn:E; auto.
+    apply existsb_eqb_mono with (l := st_full st) in E; [congruence|]. intros y Hy. apply filter_In in Hy. tauto.
+  - unfold tick. rewrite expire_pass_spec. cbn [fst]. intros p Hp. cbn [st_pend] in Hp. apply filter_In in Hp. destruct Hp as [Hp _]. apply (Hf p Hp).
+  - destruct (acquire _ c al rp dq). exact Hf.
+  - destruct (release (st_names st) c n). exact Hf.
+  - exact Hf.
+  - intros p Hp. cbn [st_pend] in Hp. unfold is_full. cbn [st_full existsb].
+    simpl in W. rewrite !andb_true_iff in W. destruct W as [_ W]. rewrite forallb_forall in W. specialize (W p Hp).
+    apply negb_true_iff in W. rewrite W. simpl. apply (Hf p Hp).
+  - intros p Hp. cbn [st_pend] in Hp. specialize (Hf p Hp). unfold is_full in *. cbn [st_full].
+    destruct (existsb (N.eqb (p_get p)) (filter (fun x => negb (x =? c)) (st_full st))) eqn:E; auto.
+    apply existsb_eqb_mono with (l := st_full st) in E; [congruence|]. intros y Hy. apply filter_In in Hy. tauto.
 Qed.
 
 (* ------------------------------------------------------------------ Part 3c: table = ledger *)
@@ -593,12 +665,12 @@ Proof.
 Qed.
 
 Lemma Inv_send st tr c m st' o :
-  Inv st tr -> names_ok st -> connected st c = true -> plain_msg m = true ->
+  Inv st tr -> names_ok st -> full_idle st -> connected st c = true -> plain_msg m = true ->
   dispatch cf st c m = (st', o) -> Inv st' ((ESend c m, o) :: tr).
 Proof.
-  intros I Hn Hc Hpl D. pose proof (dispatch_frame _ _ _ _ _ _ D) as (Fc & _ & _ & Fn).
+  intros I Hn Hfi Hc Hpl D. pose proof (dispatch_frame _ _ _ _ _ _ D) as (Fc & _ & _ & Fn).
   assert (Hconn : forall x, connected st' x = connected st x) by (intros x; unfold connected; rewrite Fc; auto).
-  destruct (send_cases _ _ _ _ _ _ Hpl D) as [Hp Hf | r Ho Hp Hnc Hno | r Rs Ho Hcall Hnr Hrs Hp Hno Hcnt | r l1 p l2 Ho Hnc Hrs Hpe Hm Hp].
+  destruct (send_cases _ _ _ _ _ _ Hfi Hpl D) as [Hp Hf | r Ho Hp Hnc Hno | r Rs Ho Hcall Hnr Hrs Hp Hno Hcnt | r l1 p l2 Ho Hnc Hrs Hpe Hm Hp].
   - (* refused *)
     apply (Inv_same st tr st'); auto; [intros x; rewrite Hconn; auto|].
     intros a b s. simpl. rewrite !Hf, !andb_false_r. reflexivity.
@@ -752,28 +824,35 @@ Lemma age_other T e o tr a b s :
 Proof. destruct e; simpl; tauto. Qed.
 
 Lemma Inv_step cf st tr e :
-  Inv cf st tr -> names_ok st -> plain_event e = true ->
+  Inv cf st tr -> names_ok st -> full_idle st -> plain_event e = true ->
   Inv cf (fst (step cf st e)) ((e, snd (step cf st e)) :: tr).
 Proof.
-  intros I Hn Hp. pose proof (step_conn cf st e) as Hc. revert Hc. unfold step.
+  intros I Hn Hfi Hp. pose proof (step_conn cf st e) as Hc. revert Hc. unfold step.
   destruct (negb (wf_event st e)) eqn:W; cbn [fst snd].
   - (* ill-formed: nothing happens *)
-    intros _. destruct e as [fds|c m|c|d|c s n al rp dq|c s n|c s rl]; try discriminate.
+    intros _. destruct e as [fds|c m|c|d|c s n al rp dq|c s n|c s rl|c|c]; try discriminate.
     + apply (Inv_same cf st tr st); auto. intros a b s. simpl. rewrite !andb_false_r. reflexivity.
     + apply Inv_noop_disconnect; auto; simpl in W; apply negb_true_iff in W; exact W.
     + apply (Inv_same cf st tr st); auto; intros; apply age_other; exact Logic.I.
     + apply (Inv_same cf st tr st); auto; intros; apply age_other; exact Logic.I.
     + apply (Inv_same cf st tr st); auto; intros; apply age_other; exact Logic.I.
-  - apply negb_false_iff in W. destruct e as [fds|c m|c|d|c s n al rp dq|c s n|c s rl]; cbn [fst snd]; intros Hc.
+    + apply (Inv_same cf st tr st); auto; intros; apply age_other; exact Logic.I.
+    + apply (Inv_same cf st tr st); auto; intros; apply age_other; exact Logic.I.
+  - apply negb_false_iff in W. destruct e as [fds|c m|c|d|c s n al rp dq|c s n|c s rl|c|c]; cbn [fst snd]; intros Hc.
     + apply (Inv_same cf st tr); auto; intros; apply age_other; exact Logic.I.
-    + simpl in W. rewrite !andb_true_iff in W. destruct W as [[W _] _].
+    + simpl in W. rewrite !andb_true_iff in W. destruct W as [[[W _] _] _].
       destruct (dispatch cf st c m) as [st' o] eqn:D. cbn [fst snd]. apply (Inv_send cf st); auto.
     + apply Inv_disconnect; auto.
     + apply Inv_tick; auto.
     + destruct (acquire _ c al rp dq) as [q' code]. cbn [fst snd]. apply (Inv_same cf st tr); auto;
         try solve [intros x Hx; simpl in Hc; rewrite Hc; auto]; try solve [intros; apply age_other; exact Logic.I].
     + destruct (release (st_names st) c n) as [nm code]. cbn [fst snd]. apply (Inv_same cf st tr); auto;
-        try solve [intros x Hx; simpl in Hc; rewrite Hc; auto]; try solve [intros; apply age_other; exact Logic.I].    + apply (Inv_same cf st tr); auto;
+        try solve [intros x Hx; simpl in Hc; rewrite Hc; auto]; try solve [intros; apply age_other; exact Logic.I].
+    + apply (Inv_same cf st tr); auto;
+        try solve [intros x Hx; simpl in Hc; rewrite Hc; auto]; try solve [intros; apply age_other; exact Logic.I].
+    + apply (Inv_same cf st tr); auto;
+        try solve [intros x Hx; simpl in Hc; rewrite Hc; auto]; try solve [intros; apply age_other; exact Logic.I].
+    + apply (Inv_same cf st tr); auto;
         try solve [intros x Hx; simpl in Hc; rewrite Hc; auto]; try solve [intros; apply age_other; exact Logic.I].
 Qed.
 
@@ -798,13 +877,20 @@ Qed.
 Lemma plain_app h1 h2 : plain (h1 ++ h2) = plain h1 && plain h2.
 Proof. unfold plain. apply forallb_app. Qed.
 
+Lemma full_idle_all cf h : full_idle (state_of cf h).
+Proof.
+  induction h as [|e h IH] using rev_ind.
+  - intros p [].
+  - unfold state_of. rewrite run_snoc. cbn [fst]. apply full_idle_step; auto.
+Qed.
+
 Theorem ledger_invariant cf h : plain h = true -> Inv cf (state_of cf h) (trace_of cf h) /\ names_ok (state_of cf h).
 Proof.
   induction h as [|e h IH] using rev_ind; intros Hp.
   - split; [apply Inv_init|]. intros n q o [].
   - rewrite plain_app in Hp. apply andb_true_iff in Hp. destruct Hp as [Hp He]. simpl in He. rewrite andb_true_r in He.
     destruct (IH Hp) as [I Hn]. unfold state_of, trace_of. rewrite run_snoc. cbn [fst snd]. split.
-    + apply Inv_step; auto.
+    + apply Inv_step; auto. apply full_idle_all.
     + apply names_ok_step; auto.
 Qed.
 
@@ -897,12 +983,12 @@ Proof.
   assert (Hop1 : opens a b s e1 o1 = false).
   { assert (Hin : In e1 (rev h')) by (rewrite <- trace_events with (cf := cf), <- Hrest, map_app; apply in_app_iff; right; left; auto).
     apply in_rev in Hin. unfold plain in Hp'. rewrite forallb_forall in Hp'. specialize (Hp' _ Hin).
-    destruct e1 as [|c1 m1| | | | |]; try discriminate. simpl in A1, Hp' |- *.
+    destruct e1 as [|c1 m1| | | | | | |]; try discriminate. simpl in A1, Hp' |- *.
     rewrite !andb_true_iff, !N.eqb_eq, negb_true_iff, N.eqb_neq in A1. destruct A1 as [[[_ R] Z] _].
     unfold plain_msg in Hp'. pose proof Hp' as Hc.
     destruct (is_call m1); [|rewrite andb_false_r; auto]. simpl in Hc. apply N.eqb_eq in Hc. congruence. }
   destruct (opened_in tr2 a b s) eqn:O; auto. exfalso.
-  destruct e2 as [|c2 m2| | | | |]; try discriminate. simpl in A2.
+  destruct e2 as [|c2 m2| | | | | | |]; try discriminate. simpl in A2.
   rewrite !andb_true_iff, !N.eqb_eq, negb_true_iff, N.eqb_neq in A2. destruct A2 as [[[C2 R2] Z2] F2]. subst c2 s.
   destruct (only_addressee cf h' b m2 a Hr Hp' Z2 F2) as [Hopen _].
   apply Hopen. rewrite <- Hrest. apply age_none_until_opened; auto.
@@ -935,6 +1021,7 @@ Proof.
   assert (Hcs : forall rq, can_send cf m rq = true) by (intros rq; unfold can_send; rewrite Hr; destruct (restrictive cf); auto).
   assert (Hcr : forall rq, can_receive cf m rq = true) by (intros rq; unfold can_receive; rewrite Hr; destruct (restrictive cf); auto).
   rewrite Hr. cbn [N.eqb]. rewrite Hcs, Hcr. cbn [negb].
+  destruct (is_full st r); [simpl; rewrite set_pend_same; reflexivity|].
   unfold is_call in Hc. destruct (m_type m); try discriminate.
   unfold expect_reply. rewrite Hn.
   destruct (expect_scan (st_pend st) c r (m_serial m) 0) as [k|] eqn:E.
@@ -1017,17 +1104,18 @@ Proof.
     replace (st_now (state_of cf h) + d - p_added q) with (st_now (state_of cf h) - p_added q + d) by lia. exact Hto.
 Qed.
 
-Lemma csp_error_kinds cf now pl c r m pl' e :
-  check_security_policy cf now pl c r m = (pl', Some e) -> e = EAccessDenied \/ e = ELimitsExceeded.
+Lemma csp_error_kinds cf now pl c r m fl pl' e :
+  check_security_policy cf now pl c r m fl = (pl', Some e) -> e = EAccessDenied \/ e = ELimitsExceeded.
 Proof.
   unfold check_security_policy.
   assert (G : forall pl1 rq,
      (if negb (can_send cf m rq) then (pl1, Some EAccessDenied)
       else if negb (can_receive cf m rq) then (pl1, Some EAccessDenied)
+      else if fl then (pl1, Some ELimitsExceeded)
       else match m_type m with TCall => expect_reply cf now pl1 c r m | _ => (pl1, None) end) = (pl', Some e) ->
      e = EAccessDenied \/ e = ELimitsExceeded).
   { intros pl1 rq. destruct (negb (can_send cf m rq)); [intros H; inversion H; auto|].
-    destruct (negb (can_receive cf m rq)); [intros H; inversion H; auto|].
+    destruct (negb (can_receive cf m rq)); [intros H; inversion H; auto|]. destruct fl; [intros H; inversion H; auto|].
     destruct (m_type m); try discriminate. intros C.
     destruct (expect_reply_cases _ _ _ _ _ _ _ _ C) as [(_ & _ & ?)|[(_ & _ & ? & _)|[(_ & _ & ? & _)|(_ & _ & ? & _)]]]; try discriminate;
       inversion H; auto. }
@@ -1045,8 +1133,8 @@ Lemma dispatch_no_noreply cf st c m a s : count_noreply (snd (dispatch cf st c m
 Proof.
   unfold dispatch. destruct (resolve st (m_dest m)) as [r|].
   - destruct ((0 <? m_nfds m) && negb (conn_fds st r)); [unfold count_noreply, nr_is; simpl; destruct (c =? a); reflexivity|].
-    destruct (check_security_policy cf (st_now st) (st_pend st) c r m) as [pl [e|]] eqn:C.
-    + destruct (csp_error_kinds _ _ _ _ _ _ _ _ C) as [->| ->]; unfold count_noreply, nr_is; simpl; destruct (c =? a); reflexivity.
+    destruct (check_security_policy cf (st_now st) (st_pend st) c r m (is_full st r)) as [pl [e|]] eqn:C.
+    + destruct (csp_error_kinds _ _ _ _ _ _ _ _ _ C) as [->| ->]; unfold count_noreply, nr_is; simpl; destruct (c =? a); reflexivity.
     + cbn [snd]. apply count_noreply_fwd_out.
   - unfold count_noreply, nr_is. simpl. destruct (m_noauto m); destruct (c =? a); reflexivity.
 Qed.
@@ -1060,7 +1148,7 @@ Proof.
   intros Hp Hc. destruct (ledger_invariant cf h Hp) as [[I1 I2 I3 I4 I5] _].
   destruct (wf_event (state_of cf h) e) eqn:W; [|rewrite step_illformed in Hc; auto; unfold count_noreply in Hc; simpl in Hc; lia].
   unfold trace_of at 2. rewrite run_snoc. cbn [snd]. fold (trace_of cf h).
-  destruct e as [fds|c m|c|d|c sr n al rp dq|c sr n|c sr rl].
+  destruct e as [fds|c m|c|d|c sr n al rp dq|c sr n|c sr rl|c|c].
   - unfold step in Hc. rewrite W in Hc. unfold count_noreply in Hc. simpl in Hc. lia.
   - rewrite step_send in Hc; auto. rewrite dispatch_no_noreply in Hc. lia.
   - simpl in W. rewrite disconnect_output in *; auto.
@@ -1084,7 +1172,8 @@ Proof.
     rewrite A. replace (st_now (state_of cf h) - p_added q + d) with (st_now (state_of cf h) + d - p_added q) by lia.
     rewrite He. reflexivity.
   - unfold step in Hc. rewrite W in Hc. cbn [negb] in Hc. destruct (acquire _ c al rp dq) in Hc. unfold count_noreply, nr_is in Hc. simpl in Hc. destruct (c =? a); simpl in Hc; lia.
-  - unfold step in Hc. rewrite W in Hc. cbn [negb] in Hc. destruct (release _ c n) in Hc. unfold count_noreply, nr_is in Hc. simpl in Hc. destruct (c =? a); simpl in Hc; lia.  - unfold step in Hc. rewrite W in Hc. cbn [negb] in Hc. unfold count_noreply, nr_is in Hc. simpl in Hc. destruct (c =? a); simpl in Hc; lia.
+  - unfold step in Hc. rewrite W in Hc. cbn [negb] in Hc. destruct (release _ c n) in Hc. unfold count_noreply, nr_is in Hc. simpl in Hc. destruct (c =? a); simpl in Hc; lia.  - unfold step in Hc. rewrite W in Hc. cbn [negb] in Hc. unfold count_noreply, nr_is in Hc. simpl in Hc. destruct (c =? a); simpl in Hc; lia.  - unfold step in Hc. rewrite W in Hc. cbn [negb] in Hc. unfold count_noreply in Hc. simpl in Hc. lia.
+  - unfold step in Hc. rewrite W in Hc. cbn [negb] in Hc. unfold count_noreply in Hc. simpl in Hc. lia.
 Qed.
 
 (* C09: the NO_REPLY_EXPECTED flag, on the ledger (holds by definition of the ledger) and on the table (noreply_opens_nothing) *)
@@ -1123,18 +1212,19 @@ Proof. intros W R. rewrite step_send; auto. unfold dispatch. rewrite R. reflexiv
 
 Theorem permissive_delivers cf st c m r :
   wf_event st (ESend c m) = true -> restrictive cf = false -> resolve st (m_dest m) = Some r ->
-  (0 <? m_nfds m) && negb (conn_fds st r) = false ->
+  (0 <? m_nfds m) && negb (conn_fds st r) = false -> is_full st r = false ->
   (is_call m = false \/ m_noreply m = true \/
    ((forall p, In p (st_pend st) -> pend_match c r (m_serial m) p = false) /\ count_get c (st_pend st) < max_replies cf)) ->
   snd (step cf st (ESend c m)) = fwd_out cf st c r m.
 Proof.
-  intros W Hr Rs Hf Hc. rewrite step_send; auto. unfold dispatch. rewrite Rs.
-  destruct (check_security_policy cf (st_now st) (st_pend st) c r m) as [pl res] eqn:C.
+  intros W Hr Rs Hf Hfl Hc. rewrite step_send; auto. unfold dispatch. rewrite Rs, Hfl.
+  destruct (check_security_policy cf (st_now st) (st_pend st) c r m false) as [pl res] eqn:C.
   assert (res = None); [|subst res; rewrite Hf; reflexivity].
   revert C. unfold check_security_policy.
   assert (G : forall pl1 rq, (forall p, In p pl1 -> In p (st_pend st)) -> count_get c pl1 <= count_get c (st_pend st) ->
      (if negb (can_send cf m rq) then (pl1, Some EAccessDenied)
       else if negb (can_receive cf m rq) then (pl1, Some EAccessDenied)
+      else if false then (pl1, Some ELimitsExceeded)
       else match m_type m with TCall => expect_reply cf (st_now st) pl1 c r m | _ => (pl1, None) end) = (pl, res) -> res = None).
   { intros pl1 rq Hsub Hcnt. unfold can_send, can_receive. rewrite Hr. cbn [negb].
     destruct (m_type m) eqn:Ty; try solve [intros H; inversion H; auto].
@@ -1151,12 +1241,15 @@ Lemma step_nonsend_no_fwd cf st e x :
   match e with ESend _ _ => False | _ => True end -> In x (snd (step cf st e)) -> match snd x with OFwd _ _ => False | _ => True end.
 Proof.
   intros He. unfold step. destruct (negb (wf_event st e)); [intros []|].
-  destruct e as [fds|c m|c|d|c s n al rp dq|c s n|c s rl]; try tauto.
+  destruct e as [fds|c m|c|d|c s n al rp dq|c s n|c s rl|c|c]; try tauto.
   - intros [].
   - unfold disconnect. rewrite expire_pass_spec. cbn [snd]. intros H. apply in_map_iff in H. destruct H as (p & <- & _). exact I.
   - unfold tick. rewrite expire_pass_spec. cbn [snd]. intros H. apply in_map_iff in H. destruct H as (p & <- & _). exact I.
   - destruct (acquire _ c al rp dq). intros [<-|[]]. exact I.
-  - destruct (release (st_names st) c n). intros [<-|[]]. exact I.  - intros [<-|[]]. exact I.
+  - destruct (release (st_names st) c n). intros [<-|[]]. exact I.
+  - intros [<-|[]]. exact I.
+  - intros [].
+  - intros [].
 Qed.
 
 Lemma no_fwd_filter a b (o : out) :
@@ -1187,7 +1280,7 @@ Proof.
   set (st := state_of cf h). set (o := snd (step cf st e)).
   assert (Hin : inbox ((e, o) :: trace_of cf h) b = inbox (trace_of cf h) b ++ map snd (filter (fun x => fst x =? b) o)) by reflexivity.
   rewrite Hin, filter_app, IH.
-  destruct e as [fds|c m|c|d|c s n al rp dq|c s n|c s rl];
+  destruct e as [fds|c m|c|d|c s n al rp dq|c s n|c s rl|c|c];
     try (rewrite no_fwd_filter; [rewrite app_nil_r; reflexivity|intros x; apply step_nonsend_no_fwd; exact I]).
   assert (Hpo : passed_on ((ESend c m, o) :: trace_of cf h) a b = passed_on (trace_of cf h) a b ++ (if (c =? a) && fwd_to o b then [m] else [])) by reflexivity.
   rewrite Hpo, map_app. f_equal.
@@ -1238,8 +1331,8 @@ Qed.
 Lemma count_gs_app a s l1 l2 : count_gs a s (l1 ++ l2) = (count_gs a s l1 + count_gs a s l2)%nat.
 Proof. unfold count_gs. rewrite filter_app, app_length. reflexivity. Qed.
 
-Lemma csp_gs cf now pl c r m pl' res a s :
-  check_security_policy cf now pl c r m = (pl', res) ->
+Lemma csp_gs cf now pl c r m fl pl' res a s :
+  check_security_policy cf now pl c r m fl = (pl', res) ->
   (count_gs a s pl' <= count_gs a s pl +
      match res with None => if (c =? a) && (m_serial m =? s) then 1 else 0 | Some _ => 0 end)%nat.
 Proof.
@@ -1247,11 +1340,12 @@ Proof.
   assert (G : forall pl1 rq, (count_gs a s pl1 <= count_gs a s pl)%nat ->
      (if negb (can_send cf m rq) then (pl1, Some EAccessDenied)
       else if negb (can_receive cf m rq) then (pl1, Some EAccessDenied)
+      else if fl then (pl1, Some ELimitsExceeded)
       else match m_type m with TCall => expect_reply cf now pl1 c r m | _ => (pl1, None) end) = (pl', res) ->
      (count_gs a s pl' <= count_gs a s pl +
         match res with None => if (c =? a) && (m_serial m =? s) then 1 else 0 | Some _ => 0 end)%nat).
   { intros pl1 rq H1. destruct (negb (can_send cf m rq)); [intros H; inversion H; subst; lia|].
-    destruct (negb (can_receive cf m rq)); [intros H; inversion H; subst; lia|].
+    destruct (negb (can_receive cf m rq)); [intros H; inversion H; subst; lia|]. destruct fl; [intros H; inversion H; subst; lia|].
     destruct (m_type m); try solve [intros H; inversion H; subst; destruct ((c =? a) && (m_serial m =? s)); lia].
     intros C. destruct (expect_reply_cases _ _ _ _ _ _ _ _ C) as [(_ & -> & ->)|[(_ & -> & -> & _)|[(_ & -> & -> & _)|(_ & -> & -> & _)]]];
       try (destruct ((c =? a) && (m_serial m =? s)); lia).
@@ -1269,14 +1363,14 @@ Lemma errors_step cf st e a s :
    <= count_gs a s (st_pend st) + (if is_send_as a s e then 1 else 0))%nat.
 Proof.
   unfold step. destruct (negb (wf_event st e)); [simpl; lia|].
-  destruct e as [fds|c m|c|d|c sr n al rp dq|c sr n|c sr rl]; cbn [is_send_as].
+  destruct e as [fds|c m|c|d|c sr n al rp dq|c sr n|c sr rl|c|c]; cbn [is_send_as].
   - simpl. lia.
   - assert (E1 : forall x, length (filter (err_is a s) [(c, OErr x (m_serial m))]) = if (c =? a) && (m_serial m =? s) then 1%nat else 0%nat).
     { intros x. cbn [filter]. unfold err_is. cbn [fst snd]. destruct ((c =? a) && (m_serial m =? s)); reflexivity. }
     unfold dispatch. destruct (resolve st (m_dest m)) as [r|]; [|cbn [fst snd]; rewrite E1; lia].
     destruct ((0 <? m_nfds m) && negb (conn_fds st r)); [cbn [fst snd]; rewrite E1; lia|].
-    destruct (check_security_policy cf (st_now st) (st_pend st) c r m) as [pl res] eqn:C.
-    pose proof (csp_gs _ _ _ _ _ _ _ _ a s C) as G.
+    destruct (check_security_policy cf (st_now st) (st_pend st) c r m (is_full st r)) as [pl res] eqn:C.
+    pose proof (csp_gs _ _ _ _ _ _ _ _ _ a s C) as G.
     destruct res as [x|]; cbn [fst snd set_pend st_pend].
     + rewrite E1. destruct ((c =? a) && (m_serial m =? s)); lia.
     + fold (fwd_out cf st c r m). rewrite err_fwd_out. simpl. lia.
@@ -1287,7 +1381,8 @@ Proof.
     pose proof (expire_partition a s (expired cf (st_now st + d)) (st_pend st)). lia.
   - destruct (acquire _ c al rp dq). simpl. unfold err_is. cbn [fst snd]. rewrite andb_false_r. simpl. lia.
   - destruct (release (st_names st) c n). simpl. unfold err_is. cbn [fst snd]. rewrite andb_false_r. simpl. lia.
-  - simpl. unfold err_is. cbn [fst snd]. rewrite andb_false_r. simpl. lia.
+  - simpl. unfold err_is. cbn [fst snd]. rewrite andb_false_r. simpl. lia.  - simpl. lia.
+  - simpl. lia.
 Qed.
 
 Lemma sends_snoc h e a s : sends_with_serial (h ++ [e]) a s = (sends_with_serial h a s + (if is_send_as a s e then 1 else 0))%nat.
@@ -1378,4 +1473,24 @@ Proof.
     destruct H as (p0 & _ & Hg & [[-> Hs]|[_ ->]]); [exact Hs|discriminate].
   - cbn [st_names]. intros n q o H Ho. eapply names_drop_clean; eauto.
   - cbn [st_rules]. intros x H. apply filter_In in H. destruct H as [_ H]. apply negb_true_iff, N.eqb_neq in H. exact H.
+Qed.
+
+(* ------------------------------------------------------------------ C09: a message the bus answers itself leaves no slot *)
+(* any refusal -- no owner, fd passing, policy, outstanding serial, reply limit, full outgoing queue of the recipient --
+   of a message that carries no REPLY_SERIAL leaves the pending-reply table exactly as it was (any state, any policy) *)
+Theorem refused_leaves_no_slot cf st c m st' o :
+  m_rserial m = 0 -> dispatch cf st c m = (st', o) -> (forall x, fwd_to o x = false) -> st_pend st' = st_pend st.
+Proof.
+  intros Hr. unfold dispatch. destruct (resolve st (m_dest m)) as [r|]; [|intros H; inversion H; auto].
+  destruct ((0 <? m_nfds m) && negb (conn_fds st r)); [intros H; inversion H; auto|].
+  unfold check_security_policy. rewrite Hr. cbn [N.eqb].
+  destruct (negb (can_send cf m false)); [intros H; inversion H; auto|].
+  destruct (negb (can_receive cf m false)); [intros H; inversion H; auto|].
+  destruct (is_full st r); [intros H; inversion H; auto|].
+  assert (Hd : forall pl, (set_pend st pl, fwd_out cf st c r m) = (st', o) -> (forall x, fwd_to o x = false) -> st_pend st' = st_pend st).
+  { intros pl H Hf. inversion H; subst. specialize (Hf r). rewrite fwd_to_single, N.eqb_refl in Hf. discriminate. }
+  destruct (m_type m); try (apply Hd).
+  destruct (expect_reply cf (st_now st) (st_pend st) c r m) as [pl res] eqn:C.
+  destruct (expect_reply_cases _ _ _ _ _ _ _ _ C) as [(_ & -> & ->)|[(_ & -> & -> & _)|[(_ & -> & -> & _)|(_ & -> & -> & _)]]];
+    first [solve [intros H; inversion H; auto] | apply Hd].
 Qed.
